@@ -290,7 +290,17 @@ def _subseg_inv(v):
     yield "expansion", forall(0, P, lambda p: aeq(at(sub, p), at(r, s0 + p)))
 
 
-@contract(UT + "rle_subseg", property=("C02", "C17"), replayable=False, branch_timeout_ms=QBT, cover_timeout_ms=CVT)
+def _empty_list_witness(st):
+    """Witness scenario for the vacuity guards (pyvc.engine.State.cover): the run list is empty.  `pc AND witness`
+    satisfiable implies `pc` satisfiable, so it can only turn an `unknown` into `covered`.  Without it the model search
+    over the quantified path condition ran into its 15 s limit in about one process out of five (z3's search order
+    varies from process to process), and now and then on every path -> `uncovered`."""
+    r = (st.ex.inputs or {}).get("rle")
+    c = n_runs(r) == 0 if r is not None else True
+    return () if isinstance(c, bool) else [c]
+
+
+@contract(UT + "rle_subseg", property=("C02", "C17"), replayable=False, branch_timeout_ms=QBT, cover_timeout_ms=CVT, cover_witness=_empty_list_witness)
 class rle_subseg:
     """Zero-length runs in the input: a zero-length run met after the skipping is over is copied into the result
     as a zero-length run, one met while skipping is dropped; the expansion is the same either way, but the clause
